@@ -820,3 +820,114 @@ Proof.
       * apply Hle; left; reflexivity.
       * apply Hle; right; exact Hy.
 Qed.
+
+(* ================================================================ 4. the code-shaped int64/float64 comparison *)
+Lemma cmp_lt : forall x y, x < y -> (x ?= y) = Lt.
+Proof. intros; apply Z.compare_lt_iff; assumption. Qed.
+Lemma cmp_gt : forall x y, x > y -> (x ?= y) = Gt.
+Proof. intros; apply Z.compare_gt_iff; lia. Qed.
+Lemma cmp_eq : forall x y, x = y -> (x ?= y) = Eq.
+Proof. intros; subst; apply Z.compare_refl. Qed.
+
+(* non-negative float  M / d  (d > 0): trunc = M / d, fractional part positive iff M mod d <> 0 *)
+Lemma go_shape_pos : forall i M d,
+  0 < d -> 0 <= M -> - two63 <= i < two63 ->
+  (if two63 <=? M / d then Lt
+   else if (M / d <? - two63) || ((M / d =? - two63) && false) then Gt
+   else match i ?= M / d with
+        | Eq => CompOpp (if M mod d =? 0 then Eq else Gt)
+        | c => c
+        end) = (i * d ?= M).
+Proof.
+  intros i M d Hd HM Hi.
+  assert (T : two63 = 9223372036854775808) by reflexivity.
+  pose proof (Z.div_mod M d ltac:(lia)) as DM. pose proof (Z.mod_pos_bound M d Hd) as MB.
+  assert (Q0 : 0 <= M / d) by (apply Z.div_pos; lia).
+  set (q := M / d) in *. set (r := M mod d) in *.
+  destruct (Z.leb_spec two63 q).
+  - symmetry. apply cmp_lt. nia.
+  - destruct (Z.ltb_spec q (- two63)); [lia|].
+    rewrite andb_false_r. simpl orb. cbv iota.
+    destruct (Z.compare_spec i q).
+    + subst i. destruct (Z.eqb_spec r 0); simpl; symmetry.
+      * apply cmp_eq. nia.
+      * apply cmp_lt. nia.
+    + symmetry. apply cmp_lt. nia.
+    + symmetry. apply cmp_gt. nia.
+Qed.
+
+(* non-positive float  -M / d *)
+Lemma go_shape_neg : forall i M d,
+  0 < d -> 0 <= M -> - two63 <= i < two63 ->
+  (if two63 <=? - (M / d) then Lt
+   else if (- (M / d) <? - two63) || ((- (M / d) =? - two63) && (if M mod d =? 0 then false else true)) then Gt
+   else match i ?= - (M / d) with
+        | Eq => CompOpp (if M mod d =? 0 then Eq else Lt)
+        | c => c
+        end) = (i * d ?= - M).
+Proof.
+  intros i M d Hd HM Hi.
+  assert (T : two63 = 9223372036854775808) by reflexivity.
+  pose proof (Z.div_mod M d ltac:(lia)) as DM. pose proof (Z.mod_pos_bound M d Hd) as MB.
+  assert (Q0 : 0 <= M / d) by (apply Z.div_pos; lia).
+  set (q := M / d) in *. set (r := M mod d) in *.
+  destruct (Z.leb_spec two63 (- q)); [lia|].
+  destruct (Z.ltb_spec (- q) (- two63)).
+  - cbn [orb]. symmetry. apply cmp_gt. nia.
+  - cbn [orb]. destruct (Z.eqb_spec (- q) (- two63)).
+    + destruct (Z.eqb_spec r 0); cbn [andb CompOpp].
+      * destruct (Z.compare_spec i (- q)); symmetry.
+        -- apply cmp_eq. nia.
+        -- apply cmp_lt. nia.
+        -- apply cmp_gt. nia.
+      * symmetry. apply cmp_gt. nia.
+    + cbn [andb]. destruct (Z.compare_spec i (- q)).
+      * subst i. destruct (Z.eqb_spec r 0); cbn [CompOpp]; symmetry.
+        -- apply cmp_eq. nia.
+        -- apply cmp_gt. nia.
+      * symmetry. apply cmp_lt. nia.
+      * symmetry. apply cmp_gt. nia.
+Qed.
+
+Lemma cmp_int_float_go_exact : forall (i : Z) (f : fl),
+  - two63 <= i < two63 ->
+  cmp_int_float_go i f = nkey_cmp (nkey_of_int i) (nkey_of_fl f).
+Proof.
+  intros i f Hi. destruct f as [|neg|neg m e].
+  - reflexivity.
+  - destruct neg; reflexivity.
+  - unfold cmp_int_float_go, nkey_of_int, nkey_of_fl, nkey_cmp, q_of_fin, fin_trunc, fin_frac_sign.
+    destruct e as [|p|p].
+    + (* e = 0 : an integer *)
+      rewrite Qcompare_inject_Z. rewrite !Z.mul_1_r.
+      pose proof (N2Z.is_nonneg m) as HM. set (M := Z.of_N m) in *.
+      destruct neg.
+      * pose proof (go_shape_neg i M 1 ltac:(lia) HM Hi) as G.
+        rewrite Z.div_1_r, Z.mod_1_r in G. simpl in G. rewrite Z.mul_1_r in G.
+        rewrite andb_false_r in G. rewrite andb_false_r. exact G.
+      * pose proof (go_shape_pos i M 1 ltac:(lia) HM Hi) as G.
+        rewrite Z.div_1_r, Z.mod_1_r in G. simpl in G. rewrite Z.mul_1_r in G. exact G.
+    + (* e > 0 : an integer M * 2^e *)
+      rewrite Qcompare_inject_Z.
+      pose proof (N2Z.is_nonneg m) as HM0.
+      assert (HP : 0 < 2 ^ Z.pos p) by (apply Z.pow_pos_nonneg; lia).
+      assert (HM : 0 <= Z.of_N m * 2 ^ Z.pos p) by nia.
+      set (M := Z.of_N m * 2 ^ Z.pos p) in *.
+      destruct neg.
+      * replace (- Z.of_N m * 2 ^ Z.pos p) with (- M) by (unfold M; ring).
+        pose proof (go_shape_neg i M 1 ltac:(lia) HM Hi) as G.
+        rewrite Z.div_1_r, Z.mod_1_r in G. simpl in G. rewrite Z.mul_1_r in G.
+        rewrite andb_false_r in G. rewrite andb_false_r. exact G.
+      * pose proof (go_shape_pos i M 1 ltac:(lia) HM Hi) as G.
+        rewrite Z.div_1_r, Z.mod_1_r in G. simpl in G. rewrite Z.mul_1_r in G. exact G.
+    + (* e < 0 : M / 2^p *)
+      pose proof (N2Z.is_nonneg m) as HM. set (M := Z.of_N m) in *.
+      assert (HP : 0 < 2 ^ Z.pos p) by (apply Z.pow_pos_nonneg; lia).
+      unfold Qcompare. simpl Qnum. simpl Qden. rewrite Pos2Z.inj_pow. rewrite Z.mul_1_r.
+      change (Z.pos 2) with 2.
+      destruct neg.
+      * pose proof (go_shape_neg i M (2 ^ Z.pos p) HP HM Hi) as G.
+        destruct (M mod 2 ^ Z.pos p =? 0); exact G.
+      * pose proof (go_shape_pos i M (2 ^ Z.pos p) HP HM Hi) as G.
+        destruct (M mod 2 ^ Z.pos p =? 0); exact G.
+Qed.
